@@ -118,6 +118,71 @@ theorem reduceOk_LineageVolumeCellState : reduceOk (reduceTableOf "LineageVolume
 example : "dead" ∈ reducePersistent (reduceTableOf "LineageVolumeCellState") := by decide +kernel
 example : "initial_time" ∈ reducePersistent (reduceTableOf "LineageVolumeCellState") := by decide +kernel
 
+/-! ### copies of copies: any number of dump/restore generations -/
+
+/-- the object after `n` generations of pickling (each generation restored into its own fresh object). -/
+def generations {V : Type} (t : PickleTable) (fresh : Nat → Obj V) (o : Obj V) : Nat → Obj V
+  | 0 => o
+  | n + 1 => restore t (fresh n) (dump t (generations t fresh o n))
+
+/-- **a copy of a copy of … of a model** still has every persistent attribute of the original, whatever the fresh
+objects the intermediate generations were restored into. -/
+theorem generations_roundtrip {V : Type} (t : PickleTable) (h : tablesOk t = true) (fresh : Nat → Obj V) (o : Obj V)
+    (n : Nat) : ∀ a ∈ persistent t, generations t fresh o n a = o a := by
+  induction n with
+  | zero => intro a _; rfl
+  | succ n ih =>
+    intro a ha
+    show restore t (fresh n) (dump t (generations t fresh o n)) a = o a
+    rw [(roundtrip t h (generations t fresh o n) (fresh n)).1 a ha]
+    exact ih a ha
+
+/-- every derived C vector of a late-generation copy mirrors the *original's* Python twin, provided the twin itself is
+persistent (it is, for every class: `twins_persistent_*` below). -/
+theorem generations_derived {V : Type} (t : PickleTable) (h : tablesOk t = true) (fresh : Nat → Obj V) (o : Obj V)
+    (n : Nat) (c : String) (hc : c ∈ t.declared.filter isDerived)
+    (hnone : t.setstate.find? (fun e => e.1 == c) = none) (htw : twin c ∈ persistent t) :
+    generations t fresh o (n + 1) c = o (twin c) := by
+  show restore t (fresh n) (dump t (generations t fresh o n)) c = o (twin c)
+  rw [(roundtrip t h (generations t fresh o n) (fresh n)).2 c hc hnone]
+  exact generations_roundtrip t h fresh o n (twin c) htw
+
+/-- the twins of all derived vectors are persistent attributes and no derived vector is written by `__setstate__`
+directly (so `generations_derived` applies to every one of them), per class. -/
+def twinsPersistent (t : PickleTable) : Bool :=
+  (t.declared.filter isDerived).all (fun c =>
+    (persistent t).contains (twin c) && (t.setstate.find? (fun e => e.1 == c)).isNone)
+
+theorem twins_persistent_Model : twinsPersistent (tableOf "Model") = true := by decide +kernel
+theorem twins_persistent_LineageModel : twinsPersistent (tableOf "LineageModel") = true := by decide +kernel
+theorem twins_persistent_Lineage : twinsPersistent (tableOf "Lineage") = true := by decide +kernel
+
+/-- the restore depends on the original only through its persistent tuple: two originals that agree on every stored
+attribute give the same copy (so later edits of the original, which change only *its* attributes, cannot reach a copy
+already made — the model-level content of "the copy is independent"; aliasing of the stored values themselves is what
+the correspondence check's edit-one-check-the-other scenarios decide). -/
+theorem restore_congr {V : Type} (t : PickleTable) (fresh : Obj V) (o o' : Obj V)
+    (h : ∀ a ∈ t.getstate, o a = o' a) : restore t fresh (dump t o) = restore t fresh (dump t o') := by
+  have : dump t o = dump t o' := by
+    unfold dump; exact List.map_congr_left h
+  rw [this]
+
+/-- copies of copies of a cell state. -/
+def reduceGenerations {V : Type} (t : ReduceTable) (fresh : Nat → Obj V) (o : Obj V) : Nat → Obj V
+  | 0 => o
+  | n + 1 => construct t (fresh n) (dumpReduce t (reduceGenerations t fresh o n))
+
+theorem reduceGenerations_roundtrip {V : Type} (t : ReduceTable) (h : reduceOk t = true) (fresh : Nat → Obj V)
+    (o : Obj V) (n : Nat) : ∀ a ∈ reducePersistent t, reduceGenerations t fresh o n a = o a := by
+  induction n with
+  | zero => intro a _; rfl
+  | succ n ih =>
+    intro a ha
+    show construct t (fresh n) (dumpReduce t (reduceGenerations t fresh o n)) a = o a
+    rw [reduce_roundtrip t h (reduceGenerations t fresh o n) (fresh n) a ha]
+    exact ih a ha
+
+
 /-! ### expression trees: `restore_binary_term` rebuilds the same term list in order -/
 
 /-- `BinaryTerm.__reduce__ = (restore_binary_term, (terms_list, cls))` and
